@@ -1708,8 +1708,13 @@ class Engine:
             st.end = "panic"
             self.event(st, "panic", "call %s" % name, callee=path, macro=t.get("macro"))
             return [st]
-        # 3. uninterpreted by policy
-        if self.opaque is not None and self.opaque(c):
+        # 3. uninterpreted by policy (a call of a closure of the analysed crate through the Fn* traits is local code, whatever
+        #    the policy says about the library function that makes the call)
+        local_closure = False
+        if c.get("kind") == "closure_once_shim" and c.get("closure_fn_id") is not None:
+            cb = self.F.fns[c["closure_fn_id"]]
+            local_closure = bool(cb and cb.get("local") and "blocks" in cb)
+        if not local_closure and self.opaque is not None and self.opaque(c):
             self.stats["calls_opaque"] += 1
             v = self.fresh(dest_tid, ("call", name, tuple(self.term(a) for a in args)))
             st.trace.append(("opaque-call", name))
@@ -1757,6 +1762,40 @@ class Engine:
             return [st]
         v = self.fresh(dest_tid, ("call", name, tuple(self.term(a) for a in args)))
         return self.finish_call([(st, v)], t)
+
+    def subcall(self, st, fn, args):
+        """Run `fn` (a MIR body, typically a closure handed to a modelled library function) to completion from inside a model.
+        -> (returned: [(state, value)], ended: [states that panicked / hit a limit inside])."""
+        saved = st.frames
+        self.nfid += 1
+        if fn.get("local"):
+            COVERED.add(fn["key"])
+        fr = Frame(fn, self.nfid)
+        st.frames = [fr]
+        for i, a in enumerate(args[:fn["arg_count"]]):
+            st.store[(fr.fid, i + 1)] = a
+        returned, ended = [], []
+        for s in self.explore(st):
+            if s.end == "return":
+                v = s.ret
+                s.end, s.ret = None, None
+                s.frames = [f.copy() for f in saved]
+                returned.append((s, v))
+            else:
+                s.frames = [f.copy() for f in saved] + s.frames
+                ended.append(s)
+        return returned, ended
+
+    def closure_fn(self, v):
+        """MIR body of a closure value (None if v is not a closure with a body)."""
+        if isinstance(v, Ref):
+            return None
+        t = self.types[v.tid] if isinstance(v, Struct) and v.tid is not None else None
+        if t and t.get("k") == "closure":
+            if not hasattr(self, "_closure_by_path"):
+                self._closure_by_path = {f["path"]: f for f in self.F.fns if f and f.get("def_kind") == "Closure" and "blocks" in f}
+            return self._closure_by_path.get(t.get("path"))
+        return None
 
     def finish_call(self, res, t):
         out = []
